@@ -95,6 +95,12 @@ def gen_cases(rng, tier, version):
     for f in faults:
         for kind in ("XS", "XR", "XA"):
             cases.append({"version": version, "turns": turns, "faults": [list(f) + [kind]], "verdicts": {}})
+    # the exception CLASS of a fault is drawn from a family of ordinary Exception subclasses (timeouts,
+    # OS / connection errors, Key/Value/TypeError, a custom class): every site sees a timeout and one more
+    fam = sorted(D.EXC_FAMILY)
+    for i, f in enumerate(faults):
+        for kind in {"XT" if i % 2 == 0 else "XAT", fam[i % len(fam)]}:
+            cases.append({"version": version, "turns": turns, "faults": [list(f) + [kind]], "verdicts": {}})
     # edge texts: every single fault and every one-rejection pattern once more with falsy / colliding
     # texts (user text == generated text included), cycling through the edge lists
     eu, eg = EDGE_USER, EDGE_GEN[version]
@@ -392,8 +398,11 @@ def run(tier, seed, replay=None):
             dist["edge_texts"] = dist.get("edge_texts", 0) + 1
         if case.get("api") == "state":
             dist["state_api"] = dist.get("state_api", 0) + 1
-        if any(len(f) > 3 for f in case["faults"]):
+        if any(len(f) > 3 and f[3] in ("XS", "XR", "XA") for f in case["faults"]):
             dist["hostile_exceptions"] = dist.get("hostile_exceptions", 0) + 1
+        for f in case["faults"]:
+            if len(f) > 3 and f[3] in D.EXC_FAMILY:
+                dist.setdefault("exception_classes", {})[f[3]] = dist.get("exception_classes", {}).get(f[3], 0) + 1
         for o in obs:
             k = reply_class(case, o, o["turn"]) if not o["exc"] else "raises"
             k = k if not k.startswith("other") else "other"
